@@ -2829,7 +2829,10 @@ class BipartiteGraphEmbed(Decomposition):
         self._check_p0(A)
         self.mean_photon_per_mode = mean_photon_per_mode
         self.tol = tol
-        self.identity = np.all(np.abs(A - np.identity(len(A))) < _decomposition_merge_tol)
+        # An adjacency (or edge) matrix equal to the identity is a graph like any other (for
+        # ``edges=True`` a perfect matching between the two vertex sets), not a trivial operation:
+        # never skip the embedding as a whole. Trivial individual gates are still dropped below.
+        self.identity = False
         self.drop_identity = drop_identity
 
         if edges:
